@@ -622,6 +622,23 @@ def oracle(env):
             if np.dtype(y.dtype).name != info["out_dtype"]:
                 fails["dtype"] = {"declared_output_dtype": info["out_dtype"], "returned_dtype": np.dtype(y.dtype).name}
             outs.append(env.flat(y))
+        # views of an operator live on the spaces of that operator
+        if e["t"] in ("T", "H", "conj", "gram", "neg"):
+            rc = env.observe(e["a"], [], None)
+            if rc[0] == "ok":
+                c = rc[1]
+                want = {
+                    "conj": (c["in_shape"], c["out_shape"], c["in_dtype"], c["out_dtype"]),
+                    "neg": (c["in_shape"], c["out_shape"], None, None),
+                    "H": (c["out_shape"], c["in_shape"], None, None),
+                    "T": (c["out_shape"], c["in_shape"], None, None),
+                    "gram": (c["in_shape"], c["in_shape"], c["in_dtype"], None),
+                }[e["t"]]
+                got = (info["in_shape"], info["out_shape"], info["in_dtype"], info["out_dtype"])
+                for nm, w, g in zip(("input_shape", "output_shape", "input_dtype", "output_dtype"), want, got):
+                    if w is not None and w != g:
+                        fails["view_" + nm] = {"view": e["t"], "operand_declares": [c["in_shape"], c["out_shape"], c["in_dtype"], c["out_dtype"]],
+                                               "view_declares": list(got), "expected_" + nm: w}
         if info["sizes"] != info["matrix_shape"] or info["matrix_shape"] != [size(info["out_shape"]), size(info["in_shape"])]:
             fails["matrix_shape"] = {"matrix_shape": info["matrix_shape"], "sizes": info["sizes"]}
         if not fails and not has_nonlin(e) and (kind_uniform(e) or not uses_adjoint(e)):
